@@ -40,6 +40,11 @@ CLAIMS = {
         "text": "PARTIAL. Decides, exhaustively over label x media x hint x guidance (320 combinations for questions, 20 each for groups and repeats) and 48 message combinations: every jr:itext id emitted by the body/bind emitters is registered by the collectors; padding gives every language every id and form and runs before serialisation; one translation per language with the default marked once; choice ids agree across instance, registration and search redirect. NOT decided: text content per language (C08).",
         "note": NOTE_COMMON,
     },
+    "C08": {
+        "technique": "bounded-exhaustive abstract evaluation of the text-to-language mapping functions (question display texts, choice id enumeration, padder over 256 presence patterns, header grouping over column permutations, default-language resolution)",
+        "text": "PARTIAL, and the property itself is NOT decided: C08 is a value-level bijection over every workbook. Decides five necessary conditions exhaustively over small enumerated domains: every text a question carries is filed under its own language or written inline (320 label x media x hint x guidance shapes); each choice finds its own label under the id its item carries, also around an unlabelled choice; the padder writes '-' exactly where nothing was written and touches nothing else (all 256 presence patterns of 2 languages x 2 ids x 2 forms); the language a cell lands under does not depend on column order (every permutation of mixed plain/translated/nested column sets); unsuffixed cells are grouped under the very language the survey marks as default (setting x argument combinations). Breaking one of these shows some language another text or none; holding all of them does not prove the property.",
+        "note": NOTE_COMMON,
+    },
     "C09": {
         "technique": "order-preserving-flow and per-item emission by abstract evaluation; instance de-duplication table; URI convention table; receiver-field provenance of the itemset; writer/reader agreement of itemsets.csv",
         "text": "PARTIAL. Decides on representative rows: grouping / cleaning / Itemset construction keep order, size and duplicates; each choice item emits [itextId] name [label] extras in column order; instances are declared once per (id, URI), clashes raise, search-only lists are inline, choices come last; every producer's URI follows the jr:// convention; the select control reads its own list/filter/randomize/seed/value/label (11 variants) and the external query its own; or_other literals; itemsets.csv writes every cell under its own header. NOT decided: grouping of arbitrary sheets at run time.",
@@ -103,9 +108,7 @@ CLAIMS = {
 }
 
 PENDING = "check not yet implemented in this revision (design in DESIGN.md §4); will be claimed when its checker lands"
-NOT_APPLICABLE = {
-    "C08": "value-level bijection (row x column x language -> itext value) computed by recursive dict merging on run-time header tokens; no sound static argument in reach bounds it (DESIGN.md §5); its structural necessary conditions are decided under C07 and C11",
-}
+NOT_APPLICABLE = {}
 for _p in ["C02", "C03", "C04", "C05", "C06", "C07", "C09", "C10", "C11", "C12", "C13", "C14", "C16", "C17", "C20"]:
     if _p not in CLAIMS:
         NOT_APPLICABLE[_p] = PENDING
